@@ -60,6 +60,8 @@ def gen_exact(draw, tier="quick"):
         spec["anis"] = [draw(st.sampled_from([0.4, 2.5])) for _ in spec["anis"]]
     if cfg["variant"] == "simple" and cfg.get("norm", "None") == "None" and draw(st.booleans()):
         case["remean"] = {"v": draw(st.floats(-2.0, 3.0)), "refresh": draw(st.booleans())}
+    elif draw(st.booleans()):
+        case["recondition"] = [draw(st.sampled_from([0.37, -0.61, 1.3])) for _ in range(4)]
     return case
 
 
@@ -137,6 +139,19 @@ def check_exact(case, rec):
             require(bool(np.all(e2 <= tolf * (1.0 + abs(float(case["remean"]["v"]))))),
                     f"estimate-only call {nm} assigning mean = {case['remean']['v']!r}: kriging does not return the conditioning values (max deviation {float(np.max(e2)):.3g})",
                     dict(tags, kind="not_exact_after_new_mean"))
+    if case.get("recondition") and cfg["geo"] == "euclid" and not cfg.get("n_ext", 0) and not case.get("fit"):
+        # the same object conditioned again on a translated point set (same number of points): the new data are honoured
+        shift = np.array(case["recondition"], dtype=float)[:fdim, None] * max(1.0, float(spec["len_scale"]))
+        pos2 = cond_pos + shift
+        with quiet():
+            k.set_condition(pos2.copy(), vals.copy())
+            f3, v3 = lib(k, pos2.copy(), _what="Krige.__call__ after set_condition(new positions)", _tags=tags, **dict(kc.target_kwargs(cfg, pos2)))
+        rec.label("reconditioned_at_new_positions")
+        e3 = np.abs(np.asarray(f3) - vals)
+        if np.all(np.isfinite(f3)):
+            require(bool(np.all(e3 <= tolf * 10)),
+                    f"after set_condition(new positions, same values) kriging does not return the conditioning values at the new locations: max deviation {float(np.max(e3)):.3g}",
+                    dict(tags, kind="not_exact_after_recondition"))
     n_proc = int(cfg.get("norm", "None") != "None") + int(cfg.get("trend", "none") != "none") + int(cfg.get("mean", "none") not in ("none",))
     rec.nontrivial(cond_pos.shape[1] >= 3 and (n_proc > 0 or kc.is_unbiased(cfg) or cfg["exact"]))
 
